@@ -13,7 +13,9 @@ FAMILY = {
     "C10": dict(verdicts=("ViewOK:",), calls=("commit", "edit", "check_out", "remove_workspace")),
     "C11": dict(verdicts=("RebaseOK:", "PredsOK:rewrite-without-predecessor"), calls=("rebase",)),
     "C13": dict(verdicts=("MergeOK:",), calls=("merge_operations", "load_at_head")),
-    "C46": dict(verdicts=("WalkOK:", "PredsOK:commit-without-record"), calls=("walk_predecessors",)),
+    # a rewrite without its predecessor record breaks both C11 ("records its predecessor") and
+    # C46 ("lists every commit it was rewritten from"): both checks report it
+    "C46": dict(verdicts=("WalkOK:", "PredsOK:"), calls=("walk_predecessors",)),
 }
 
 
